@@ -564,6 +564,7 @@ func buildModels(P *Program) map[string]Model {
 		}
 		saved := m.owner
 		m.owner = "pool"
+		m.allocEvent("sync.Pool miss: New called")
 		r := m.callClosure(fr, nf, nil)
 		m.owner = saved
 		return r
